@@ -489,6 +489,8 @@ func (c *Ctx) plainCodecRules(r *Report, prefix string) {
 	// bijections
 	c.bijectionRule(r, prefix+"dispatch.ike", c.Method("message", "IKEPayloadContainer", "Decode"), "message", "IKEPayload", "Type", 16)
 	c.bijectionRule(r, prefix+"dispatch.eap", c.Method("eap", "EAP", "Unmarshal"), "eap", "EapTypeData", "Type", 5)
+	c.akaEmitsAllRule(r, prefix+"aka.emits-every-attribute")
+	c.noSilentSkipRule(r, prefix+"decode.no-silent-skip", "eap", "message")
 	c.chainRules(r, prefix)
 	w.siblingRule(r, prefix+"siblings")
 	w.perFunctionRule(r, prefix+"siblings.shared-record")
